@@ -111,7 +111,7 @@ class C05(vlib.Check):
             "after every step every live database is dumped and compared with the model, and observed through db[i], "
             "db[name], the name index and iteration against a plain list-of-rows oracle; databases whose matrix holds explicitly "
             "stored zeros are put through every read-only operation (frame only); directed histories with the same property columns declared in "
-            "different orders and then concatenated; one accepted batch of 66 000+ fingerprints read back around every power-of-two row. Non-trivial: history with at least "
+            "different orders and then concatenated; one accepted batch of 66 000+ fingerprints read back around every power-of-two row; get_subset requests of every shape; narrow-dtype property columns receiving wider values. Non-trivial: history with at least "
             "one derived database and one read; distinct by history.")
     trusted_base = ["SciPy CSR vstack / slicing / sum_duplicates, NumPy savez/load, pickle (compared on every run)"]
     faults = False
